@@ -1625,9 +1625,11 @@ func parseFieldNumValue(s string) (float64, int32, error) {
 		return 0, Field_Type_Unknown, fmt.Errorf("invalid number")
 	}
 	if ch == 'f' && len(s) > 1 {
-		// Unsigned integer value
-		ss := s[:len(s)-1]
-		n := fastfloat.ParseBestEffort(ss)
+		// Float value with an explicit suffix
+		n, err := parseFloatValue(s[:len(s)-1])
+		if err != nil {
+			return 0, Field_Type_Unknown, err
+		}
 		return n, Field_Type_Float, nil
 	}
 	if s == "t" || s == "T" || s == "true" || s == "True" || s == "TRUE" {
@@ -1637,16 +1639,24 @@ func parseFieldNumValue(s string) (float64, int32, error) {
 		return 0, Field_Type_Boolean, nil
 	}
 
-	if !IsValidNumber(s) {
-		return 0, Field_Type_Unknown, fmt.Errorf("invalid field value")
+	f, err := parseFloatValue(s)
+	if err != nil {
+		return 0, Field_Type_Unknown, err
 	}
+	return f, Field_Type_Float, nil
+}
 
+// parseFloatValue parses a decimal floating-point token. The token must be a number in the
+// sense of IsValidNumber; NaN and infinities are rejected.
+func parseFloatValue(s string) (float64, error) {
+	if !IsValidNumber(s) {
+		return 0, fmt.Errorf("invalid field value")
+	}
 	f := fastfloat.ParseBestEffort(s)
 	if math.IsNaN(f) || math.IsInf(f, 0) {
-		return 0, Field_Type_Unknown, fmt.Errorf("invalid number")
+		return 0, fmt.Errorf("invalid number")
 	}
-
-	return f, Field_Type_Float, nil
+	return f, nil
 }
 
 func parseFieldStrValue(s string) (string, error) {
